@@ -143,10 +143,18 @@ class Stats:
     time = 0.0
 
 
-def check_sat(assertions, timeout_ms=5000):
-    """returns 'sat' | 'unsat' | 'unknown' and the solver (for models)"""
+RLIMIT_PER_MS = 3000       # deterministic resource budget per nominal millisecond (calibrated: ~1 ms of z3 work)
+
+
+def check_sat(assertions, timeout_ms=5000, mbqi=True):
+    """returns 'sat' | 'unsat' | 'unknown' and the solver (for models).
+    The budget is z3's deterministic resource limit (rlimit), so verdicts do not depend on machine load; the wall-clock
+    timeout is only a backstop (8x)."""
     s = z3.Solver()
-    s.set("timeout", int(timeout_ms))
+    s.set("rlimit", int(timeout_ms * RLIMIT_PER_MS))
+    s.set("timeout", int(timeout_ms * 8))
+    if not mbqi:
+        s.set("smt.mbqi", False)
     for a in assertions:
         s.add(a)
     t0 = time.time()
@@ -154,6 +162,57 @@ def check_sat(assertions, timeout_ms=5000):
     Stats.checks += 1
     Stats.time += time.time() - t0
     return str(r), s
+
+
+def prove(assertions, timeout_ms=5000):
+    """unsat-oriented check: E-matching only first (fast), then with MBQI; returns (result, solver)"""
+    r, s = check_sat(assertions, timeout_ms, mbqi=False)
+    if r == "unsat":
+        return r, s
+    return check_sat(assertions, timeout_ms, mbqi=True)
+
+
+def _has_quant(f):
+    key = f.get_id()
+    r = _HQ.get(key)
+    if r is None:
+        r = _hq(f)
+        _HQ[key] = r
+    return r
+
+
+_HQ = {}
+
+
+def _hq(f):
+    seen = set()
+    stack = [f]
+    while stack:
+        x = stack.pop()
+        i = x.get_id()
+        if i in seen:
+            continue
+        seen.add(i)
+        if z3.is_quantifier(x):
+            return True
+        stack.extend(x.children())
+    return False
+
+
+FULL_FEASIBILITY = os.environ.get("PYVC_FULL_FEAS") == "1"
+
+
+def quick_sat(assertions, full_timeout_ms=400):
+    """two-tier feasibility: (1) quantifier-free part only (dropping hypotheses is sound for refutation);
+    (2) everything, short timeout. 'unknown' counts as satisfiable."""
+    qf = [a for a in assertions if not _has_quant(a)]
+    r, _ = check_sat(qf, 2000)
+    if r == "unsat":
+        return "unsat"
+    if len(qf) == len(assertions) or not FULL_FEASIBILITY:
+        return r
+    r2, _ = check_sat(assertions, full_timeout_ms)
+    return r2
 
 
 def feasible(pc, timeout_ms=2000):
@@ -164,7 +223,7 @@ def feasible(pc, timeout_ms=2000):
 
 def entails(pc, goal, timeout_ms=3000):
     """True iff pc |= goal is established (unsat of pc & not goal); unknown -> False"""
-    r, _ = check_sat(list(pc) + [Not(goal)], timeout_ms)
+    r, _ = check_sat(list(pc) + [Not(goal)], timeout_ms, mbqi=False)
     return r == "unsat"
 
 
